@@ -38,7 +38,7 @@ def classify(pid, d):
 
 CLASSIFIERS = {}
 
-ALL_EXTRACTORS = ["Basic", "Message", "Conversion", "Session", "Service", "SigGrammar", "Value", "Reader", "Encoding", "GenReaders", "Endpoint", "Stream", "Client"]
+ALL_EXTRACTORS = ["Basic", "Message", "Conversion", "Session", "Service", "SigGrammar", "Value", "Reader", "Encoding", "GenReaders", "Endpoint", "Stream", "Client", "Queues"]
 
 
 def lean_string_list(path, name):
@@ -84,13 +84,15 @@ PROPS = {
     },
     "C19": {
         "level": "proof",
-        "extract": ["Session"],
+        "extract": ["Session", "Queues"],
         "model_ops": c19_model_ops,
         "rule": "stress: N in {2,8,32} (thorough: up to 64) goroutines request proxies for 5 services behind 3 endpoints "
                 "(accept delayed 1-4 ms so that dial windows overlap) from one fresh session per round, call through each "
                 "proxy, then count live connections per endpoint; run in a child process (a fatal runtime error cannot be "
                 "recovered); every round is non-trivial; plus exhaustive exploration of all schedules of 2 and 3 goroutines "
-                "of the program compiled from the regenerated token list",
+                "of the program compiled from the regenerated token list; flood: one object busy with a slow call of another "
+                "client while 4 / 8 / 40 goroutines request a proxy of it through one session (40 exceeds the server's "
+                "buffering: known finding)",
         "assumptions": [
             "RWMutex without writer preference (superset of Go's interleavings for safety; no recursive read-locking in this code)",
             "a working proxy over a real network and wall-clock bounds are observed in the stress run, not proved",
